@@ -82,6 +82,11 @@ func genC05(t *rapid.T) *LCase {
 		}
 	}
 	c.Calls = append(c.Calls, Call{K: "close", N: rapid.IntRange(1, 3).Draw(t, "nclose-final")})
+	if engine.Pct(t, "storm", 20) {
+		// the final Close calls race several goroutines looping over
+		// Add/WatchList/Remove, and one more Close follows
+		c.Storm = rapid.IntRange(3, 10).Draw(t, "storm-n")
+	}
 	genOverflow(t, c)
 	return c
 }
@@ -128,7 +133,36 @@ func runC05(c *LCase) (viol string, nontrivial bool) {
 		if call.K == "close" && call.N > 1 {
 			n = call.N
 		}
-		res := make(chan string, n)
+		storm := 0
+		if i == len(c.Calls)-1 {
+			storm = c.Storm
+		}
+		res := make(chan string, n+storm+1)
+		for g := 0; g < storm; g++ {
+			g := g
+			go func() {
+				proof, _ := withWatchdog(fmt.Sprintf("storm goroutine %d (Add/WatchList/Remove loop)", g), func() {
+					for j := 0; j < 60; j++ {
+						switch (j + g) % 3 {
+						case 0:
+							w.W.Add([]string{"d0", "d1", "u"}[j%3])
+						case 1:
+							w.W.WatchList()
+						default:
+							w.W.Remove([]string{"d1", "u"}[j%2])
+						}
+					}
+				})
+				res <- proof
+			}()
+		}
+		if storm > 0 {
+			defer func() {
+				if viol == "" {
+					viol = guarded("Close() after the racing calls", func() { w.W.Close() })
+				}
+			}()
+		}
 		for k := 0; k < n; k++ {
 			go func() {
 				proof, ok := withWatchdog(call.String(), func() {
@@ -150,7 +184,7 @@ func runC05(c *LCase) (viol string, nontrivial bool) {
 				}
 			}()
 		}
-		for k := 0; k < n; k++ {
+		for k := 0; k < n+storm; k++ {
 			if p := <-res; p != "" {
 				return fmt.Sprintf("call %d: %s", i, p), nontrivial
 			}
